@@ -339,6 +339,12 @@ def reader_case(ctx, data, sched, bufsize, crlf_only, label, aligned=False):
 
 def make_data(rng, small=False, crlf=True):
     items = c02.make_items(rng, n=rng.randint(2, 5) if small else rng.randint(4, 14))
+    if rng.random() < 0.2:  # a sentence from a careless talker (CR CR LF, odd checksum characters) between the items
+        for _try in range(8):
+            line = streams.nmea(rng, 20, sloppy=True)
+            if line.endswith(b"\r\n"):  # (lines that end in a bare LF are outside the file / socket comparison)
+                items.insert(rng.randrange(len(items) + 1), ("nmea-sloppy", line, None))
+                break
     if small:
         items = [it for it in items if len(it[1]) < 120] or items[:1]
     return b"".join(b for _, b, _ in items)
